@@ -12,7 +12,13 @@
      FPermanent  ClientError with a permanent code (AccessDenied ...), no effect;
      FLost       the request took effect on the store but the client saw a retryable ClientError.
    Clients execute one primitive per SStep (yield points of harness/lib/coop.py: every S3 request,
-   time.time, datetime.now, time.sleep); the heartbeat thread is the event SRenew (one _renew_once).
+   time.time, datetime.now, time.sleep); the heartbeat thread is the event SRenew = ONE ITERATION of
+   _heartbeat_loop (the `if not self.is_locked: break` guard, then one _renew_once); the wait between two
+   iterations is STick.  A renewal that fails without a verdict (FTransient / FPermanent, or FLost as the
+   client sees it) changes NOTHING in the client's record -- is_locked stays True, the loop keeps ticking,
+   and no field remembers "a heartbeat ran": is_held() has no cache and always reads the object, so a
+   holder whose renewals fail until the lease lapses and who is then taken over answers False
+   (C19_s3_superseded holds for every number of such SRenew events).
    Time is in milliseconds.
 
    Environment (event SEnv, may change at any moment of a run: TZ / tzset / a DST switch; a different
